@@ -28,3 +28,16 @@ Definition count_users (tr : list tok) : nat := length (filter (fun t => match t
 (* the example history contains several effective writes to an existing run and several step-function invocations *)
 Example ex_nonvacuous : (3 <= count_stores (trace_of ex_cfg ex_ops))%nat /\ (2 <= count_users (trace_of ex_cfg ex_ops))%nat.
 Proof. vm_compute. split; repeat constructor. Qed.
+
+(* ---------- F13 on the engine model: an older finished run, the schedule started three minutes later ---------- *)
+Definition f13_cfg : econfig :=
+  mkEcfg [mkStep 1 (BRet true 2) [2] 0 0 0] [] [] [] [mkSched 5%N 1 9 0] 0 0 0 (-1) 1000 0 1 false.
+Definition f13_ops : list eop :=
+  [OTrigger 5%N 0 1 []; OStep 1 EOutbox []; OStep 1 (EStep 1 1 1) []; OStep 1 (EStep 1 1 1) []; OStep 1 EOutbox []; OAdvance 180000000000;
+   OSched 1 5%N true; OStep 1 (ESched 5%N) []].
+Definition created_by_scheduler (tr : list tok) : list Z :=
+  flat_map (fun t => match t with TStore None r ROk => if (r_fid r =? 5)%N && (0 <? r_created r) then [r_created r] else [] | _ => [] end) tr.
+
+(* the scheduler creates a run at its start (180 s), before the first tick after the start (220 s) *)
+Example f13_witness : created_by_scheduler (trace_of f13_cfg f13_ops) = [180000000000] /\ 180000000000 < cron_next 1 180000000000.
+Proof. vm_compute. split; reflexivity. Qed.
